@@ -105,7 +105,10 @@ Init == /\ \E a \in Placements("a"), p \in Placements("p"), u \in Placements("u"
               pp \in Placements("pp"), pa \in Placements("pa"), hb \in Placements("hb") :
            LET f == [a |-> a, p |-> p, u |-> u, pv |-> pv, i |-> i, o |-> o, s |-> s, d |-> d,
                      w |-> w, n |-> n, r |-> r, pp |-> pp, pa |-> pa, hb |-> hb]
-           IN vec = [cli |-> [x \in Opts |-> f[x][1]], cfg |-> [x \in Opts |-> f[x][2]]]
+           IN \E hbsp \in (IF Space \in {"decision", "theorems", "theorems-small"} /\ f["hb"][1] # None
+                            THEN {"any", "abbreq"} ELSE {"any"}) :
+              vec = [cli |-> [x \in Opts |-> f[x][1]], cfg |-> [x \in Opts |-> f[x][2]],
+                     sp  |-> [x \in Opts |-> IF f[x][1] = None THEN None ELSE IF x = "hb" THEN hbsp ELSE "any"]]
         /\ pc = "argparse" /\ outcome = None /\ written = {} /\ call = NoCall
 
 Argparse ==
